@@ -207,6 +207,11 @@ impl<PN: PropertyName> Property<PN> {
     }
 
     pub fn new_array(fixed_array_len: usize, store_handle: StoreHandle, name: PN) -> Self {
+        // The length of the inline part is stored on 5 bits.
+        assert!(
+            fixed_array_len <= 31,
+            "The inline part of an array cannot be longer than 31 bytes"
+        );
         if fixed_array_len == 0 && store_handle.kind() == ValueStoreKind::Indexed {
             Property::IndirectArray { store_handle, name }
         } else {
